@@ -7,12 +7,22 @@ import (
 	"sort"
 	"strconv"
 	"strings"
+	"time"
 
 	"pgregory.net/rapid"
 	"verif/harness/ev"
 )
 
-var evSafe = ev.Safe
+// evSafe runs one call into the library: a panic becomes a PanicInfo, and so does a call that does not return within a minute
+// (no library call in these checks takes more than milliseconds; the frame "hang" makes it a keyed difference like a panic, and it
+// is printed at once, so that the driver still has it when the runaway goroutine later exhausts memory or the time limit).
+func evSafe(fn func()) *ev.PanicInfo {
+	pi, ok := ev.Timed(time.Minute, fn)
+	if !ok {
+		return &ev.PanicInfo{Value: "the call did not return within 1m0s", Frame: "hang"}
+	}
+	return pi
+}
 
 // failUnknown is the tail of every rapid property: differences masked by known findings are counted, the first
 // unmasked one fails the case (rapid then shrinks it; the minimal case becomes the replay file).
